@@ -208,6 +208,22 @@ CLAIMS = {
   "NOT proved (UNPROVED block in the file, DESIGN section 10): for transcript-bound positions, and for pow_bits / n_queries, that the mutant "
   "then fails some check — a random-oracle statement; left to the sweep.",
   "Lean 4 machine-checked proof (collision-extraction; partial on transcript-bound positions) + position sweep on the real verifier", "7/C02"),
+
+ 'C19': ("proof",
+  "PARTIAL: the regex engine and serde are not modelled. The MODEL is an INDEPENDENT Lean loader (Model/Loader.lean) written from the Stone "
+  "file format, with checked narrowing, using the VERIFIER's translated layout constants and DynamicParams field order. Lean theorems "
+  "(Props/C19.lean): extraction of every annotation class is an order-preserving filterMap over the stream and an unparsable member fails "
+  "the whole load; Data-then-Hash concatenation equals stream order when no Hash precedes a Data line; segments are the input entries "
+  "permuted into builtin order (unknown name => error); the 340 Stone dynamic-parameter keys, sorted, are exactly the verifier struct's field "
+  "order translated from dynamic.rs; difficulty <= 255 and nonce < 2^64 or error; config derivation from step list / n_steps / blow-up; the "
+  "loader is total and all-or-nothing. Tie: the REAL proof_parser + REAL cli/src/transform.rs (compiled from /repo) vs the loader, token for "
+  "token, on all 25 shipped files (identical) and on edited copies (digit changes, swapped / removed / duplicated lines, Hash before Data, "
+  "difficulty 255/256/286, nonce 0 / 2^64, unknown / missing segments, bad hex, n_steps, step lists, dynamic-parameter counts): the loader is "
+  "the specification; the real code must never panic, must reject the truncating / malformed classes, and must agree with the loader wherever "
+  "both succeed. Seven parser/CLI defects were repaired (fix: commits); the remaining leniencies of the regex design are KNOWN FINDINGS.",
+  "Known findings (printed, exit 0): garbled / removed annotation lines are silently skipped; duplicate or mis-indexed commitment lines accepted; "
+  "a Hash line preceding Data lines is reordered. Values >= P are reduced silently; continuous page headers are dropped by the CLI conversion (observations).",
+  "Lean 4 machine-checked proof over an independent loader + differential test against the real parser and CLI conversion", "7/C19"),
 }
 
 ORDER = [f'C{i:02d}' for i in range(1, 20)]
